@@ -146,10 +146,11 @@ def load(names=('consts', 'encoder', 'utils', 'writers', '__init__'), extra_shad
         L.info[name] = {'merged_if_sites': tr.sites, 'summarised_pure_functions': tr.pure, 'exposed_nested_defs': tr.exposed,
                         'sha256': hashlib.sha256(src.encode()).hexdigest()}
     # post-load wrapping of objects that meet symbolic values at the C boundary (contents untouched)
+    from . import regex
+    for m_ in L.mods.values():
+        regex.wrap_module(m_)
     if 'encoder' in L.mods:
         enc = L.mods['encoder']
-        if hasattr(enc, '_ALPHANUMERIC_PATTERN'):
-            enc._ALPHANUMERIC_PATTERN = CharSetPattern(enc._ALPHANUMERIC_PATTERN)
         enc.math = shadow.MathShim()
     if 'consts' in L.mods:
         c = L.mods['consts']
